@@ -14,8 +14,10 @@ import (
 	"encoding/json"
 	"fmt"
 	"os"
+	"os/signal"
 	"path/filepath"
 	"regexp"
+	"runtime"
 	"runtime/debug"
 	"strings"
 	"syscall"
@@ -309,6 +311,19 @@ func c04SetLimits() {
 	// taking the machine down
 	lim := syscall.Rlimit{Cur: 8 << 30, Max: 8 << 30}
 	_ = syscall.Setrlimit(syscall.RLIMIT_AS, &lim)
+	// watchdog of the parent: SIGUSR1 = print all goroutines (stop-the-world, so that a goroutine
+	// spinning on another thread is printed too) and leave
+	ch := make(chan os.Signal, 1)
+	signal.Notify(ch, syscall.SIGUSR1)
+	go func() {
+		<-ch
+		buf := make([]byte, 8<<20)
+		n := runtime.Stack(buf, true)
+		os.Stderr.WriteString("\nC04-WATCHDOG-DUMP\n\n")
+		os.Stderr.Write(buf[:n])
+		os.Stderr.WriteString("\n\n")
+		os.Exit(3)
+	}()
 }
 
 func init() {
